@@ -235,12 +235,57 @@ def extract(repo):
     return ok, [o for _, o in ops], notes
 
 
+def extract_shell(repo):
+    """run_command (rip-tools shell.rs): the two capture_stream futures and child.wait() are driven together
+    by one body-level tokio::join! - the tool's output is built from captures that ran to EOF"""
+    facts = {"captures_and_wait_found": False, "joined_unconditionally": False, "no_bound_or_detach": False}
+    notes = []
+    p = os.path.join(repo, "crates", "rip-tools", "src", "builtins", "shell.rs")
+    if not os.path.exists(p):
+        return facts, ["crates/rip-tools/src/builtins/shell.rs not found"]
+    src = sanitize(open(p).read())
+    m = re.search(r"async\s+fn\s+run_command\s*\(", src)
+    if not m:
+        return facts, ["async fn run_command not found"]
+    sig_end = match_close(src, m.end() - 1)
+    b0 = src.find("{", sig_end)
+    body = src[b0 + 1:match_close(src, b0) - 1]
+    dep = depths(body)
+    names = {}
+    for mm in re.finditer(r"\blet\s+(?:mut\s+)?(\w+)\s*=\s*capture_stream\s*\(\s*(stdout|stderr)\b", body):
+        if dep[mm.start()] == 0:
+            names[mm.group(2)] = mm.group(1)
+    mw = [mm for mm in re.finditer(r"\blet\s+(?:mut\s+)?(\w+)\s*=\s*child\s*\.\s*wait\s*\(\s*\)\s*;", body) if dep[mm.start()] == 0]
+    if len(mw) == 1:
+        names["wait"] = mw[0].group(1)
+    facts["captures_and_wait_found"] = set(names) == {"stdout", "stderr", "wait"}
+    notes.append(f"run_command: futures {names}")
+    if facts["captures_and_wait_found"]:
+        joins = [mm for mm in re.finditer(r"\blet\s*\([^)]*\)\s*=\s*tokio::join!\s*\(([^)]*)\)\s*;", body) if dep[mm.start()] == 0]
+        if len(joins) == 1:
+            args = [a.strip() for a in joins[0].group(1).split(",") if a.strip()]
+            facts["joined_unconditionally"] = sorted(args) == sorted(names.values())
+            notes.append(f"run_command: tokio::join!({', '.join(args)})")
+            uses = {n: len(re.findall(r"\b" + re.escape(n) + r"\b", body)) for n in names.values()}
+            if any(v != 2 for v in uses.values()):      # the `let` and the join!
+                facts["joined_unconditionally"] = False
+                notes.append(f"run_command: a joined future is used elsewhere: {uses}")
+        else:
+            notes.append(f"run_command: {len(joins)} body-level `let (..) = tokio::join!(..)`")
+    bad = re.findall(r"\btimeout\s*\(|\bselect!|\.\s*abort\s*\(|\btokio::spawn\b|\bsleep\s*\(", body)
+    facts["no_bound_or_detach"] = not bad
+    if bad:
+        notes.append(f"run_command uses {sorted(set(b.strip() for b in bad))}")
+    return facts, notes
+
+
 def main():
     ap = argparse.ArgumentParser()
     ap.add_argument("--repo", required=True)
     ap.add_argument("--out", required=True)
     a = ap.parse_args()
     ok, ops, notes = extract(a.repo)
+    sfacts, snotes = extract_shell(a.repo)
     lines = [
         "(* GENERATED by tools/gen/pump_join.py from crates/ripd/src/tasks/pipes.rs (run_pipes_task) on every ./check run",
         "   -- do not edit.  A committed copy serves as seed only.  The waiter's steps in source order (C17, T1). *)",
@@ -258,11 +303,22 @@ def main():
     lines.append("Proof. vm_compute. reflexivity. Qed.")
     lines.append("Lemma gen_pump_join_ok : skel_wf gen_pipes_waiter = true.")
     lines.append("Proof. vm_compute. reflexivity. Qed.")
+    lines.append("")
+    lines.append("(* the foreground shell tool (rip-tools shell.rs run_command): both capture_stream futures and child.wait()")
+    lines.append("   are driven by ONE body-level tokio::join! - the captures the tool reports ran to EOF, which is the")
+    lines.append("   `chunks` = everything written premise of c17_stored_is_prefix_capture *)")
+    for n in snotes:
+        lines.append("(* " + n.replace("(*", "( *").replace("*)", "* )") + " *)")
+    for k, v in sfacts.items():
+        lines.append(f"Definition gen_shell_{k} : bool := {'true' if v else 'false'}.")
+    lines.append("Definition gen_shell_captures_joined : bool :=\n  " + " && ".join(f"gen_shell_{k}" for k in sfacts) + ".")
+    lines.append("Lemma gen_shell_join_ok : gen_shell_captures_joined = true.")
+    lines.append("Proof. vm_compute. reflexivity. Qed.")
     os.makedirs(a.out, exist_ok=True)
     open(os.path.join(a.out, "PumpJoin.v"), "w").write("\n".join(lines) + "\n")
-    for n in notes:
+    for n in notes + snotes:
         print(n)
-    print("ok:", ok, "waiter:", ops)
+    print("ok:", ok, "waiter:", ops, "shell:", sfacts)
     return 0
 
 
